@@ -197,7 +197,7 @@ def run_c19(cx, tier="quick"):
     sys.path.insert(0, ROOT)
     # the per-condition timeout only matters on a loaded machine: CrossHair returns as soon as every path is explored
     t = 600 if tier == "quick" else 1500
-    os.environ["C19_MAXLEN"] = "3" if tier == "quick" else "4"
+    os.environ["C19_MAXLEN"] = os.environ.get("C19_MAXLEN_OVERRIDE") or ("3" if tier == "quick" else "5")
     res, out, dt = run_crosshair_parallel(path, per_condition_timeout=t, wall_timeout=3000)
     # which scalar representations are not `float` (measured on the real objects, recorded as a note)
     import numpy as np
